@@ -553,6 +553,15 @@ func genTok(optionMode string) func(ctx *Ctx) {
 				}
 			}
 		}
+		// a state that puts two characters back (a slash that opens no comment, a sign or a point that starts no number)
+		// directly before a line break, on a line opened by each kind of break
+		for _, a := range brk {
+			for _, pre := range []string{"/", "-", ".", "4 /", "a -", "b ."} {
+				for _, b := range brk {
+					emit([]rune("1"+a+"* 4 "+pre+b+"2 y"), "mixed-line-breaks")
+				}
+			}
+		}
 		// option sweep: a few inputs on which every option has something to do (comments, numbers of both kinds, quoted
 		// strings with doubled quotes, unknown characters, whitespace runs, line breaks) under ALL 128 option sets
 		if optionMode == "all" && !ctx.Thorough {
